@@ -177,12 +177,81 @@ def go_test(work, files, run, env_extra, pkgdir="internal/server", timeout=1800,
            "-run", run, "-timeout", "%ds" % timeout]
     if race:
         cmd.append("-race")
+    prof = None
+    if os.environ.get("VERIF_COVER") == "1" and not race:
+        # statement coverage of /repo's packages under this harness run (evidence only: which modelled code the
+        # correspondence run actually exercised)
+        prof = work.path("cover-%d.out" % len(COVER_RUNS))
+        COVER_RUNS.append(prof)
+        cmd += ["-covermode=set", "-coverpkg=./internal/...", "-coverprofile=" + prof]
     if extra_args:
         cmd += extra_args
     cmd.append("./" + pkgdir)
     p = subprocess.run(cmd, cwd=REPO, env=env, stdout=subprocess.PIPE, stderr=subprocess.STDOUT,
                        text=True, timeout=timeout + 120)
+    if prof and os.path.exists(prof):
+        cover_merge(prof)
     return p.returncode, p.stdout
+
+
+COVER_RUNS = []
+COVER_BLOCKS = {}      # "file:range" -> [statements, hit?]
+
+
+def cover_merge(path):
+    with open(path) as f:
+        for line in f:
+            if line.startswith("mode:"):
+                continue
+            parts = line.rsplit(" ", 2)
+            if len(parts) != 3:
+                continue
+            b = COVER_BLOCKS.setdefault(parts[0], [int(parts[1]), 0])
+            b[1] = b[1] or int(parts[2])
+
+
+def cover_summary(work, prop):
+    """Per-file and per-function statement coverage of the merged profiles; functions of the property's anchor files that the
+    run did not fully exercise are listed."""
+    if not COVER_BLOCKS:
+        return None
+    merged = work.path("cover-merged.out")
+    with open(merged, "w") as f:
+        f.write("mode: set\n")
+        for k, (n, c) in sorted(COVER_BLOCKS.items()):
+            f.write("%s %d %d\n" % (k, n, 1 if c else 0))
+    p = subprocess.run(["go", "tool", "cover", "-func=" + merged], cwd=REPO, env=go_env(), stdout=subprocess.PIPE,
+                       stderr=subprocess.STDOUT, text=True, timeout=300)
+    anchors = []
+    try:
+        for l in open(os.path.join(VERIF, "properties.jsonl")):
+            pr = json.loads(l)
+            if pr["id"] == prop:
+                anchors = pr["anchors"]["files"]
+    except Exception:
+        pass
+    files = {}
+    for k, (n, c) in COVER_BLOCKS.items():
+        fn = k.split(":")[0].split("kamal-proxy/")[-1]
+        t = files.setdefault(fn, [0, 0])
+        t[0] += n
+        t[1] += n if c else 0
+    partial = []
+    nfun = full = 0
+    for line in p.stdout.splitlines():
+        m = re.match(r"^\S*kamal-proxy/(\S+?):(\d+):\s+(\S+)\s+([0-9.]+)%$", line)
+        if not m:
+            continue
+        nfun += 1
+        if m.group(4) == "100.0":
+            full += 1
+        elif m.group(1) in anchors:
+            partial.append("%s:%s %s %s%%" % (m.group(1), m.group(2), m.group(3), m.group(4)))
+    return {"harness_runs_measured": len(COVER_RUNS), "functions": nfun, "functions_fully_covered": full,
+            "anchor_files": {f: "%d/%d statements" % (files[f][1], files[f][0]) for f in anchors if f in files},
+            "anchor_functions_not_fully_covered": partial[:60],
+            "note": "statement coverage (go test -cover, -coverpkg=./internal/...) of /repo under the harness runs of this check; "
+                    "evidence about the correspondence run only, not part of any verdict"}
 
 
 def read_jsonl(path):
@@ -260,6 +329,16 @@ class Result:
             ev["coverage"]["notes"] = self.notes
         if self.known:
             ev["coverage"]["known_findings_reported"] = self.known
+        if COVER_BLOCKS:
+            cw = Work(self.prop + "-cover")
+            try:
+                cs = cover_summary(cw, self.prop)
+                if cs:
+                    ev["coverage"]["code_coverage"] = cs
+            except Exception as ex:       # evidence only
+                ev["coverage"]["code_coverage"] = {"error": str(ex)[:300]}
+            finally:
+                cw.cleanup()
         os.makedirs(os.path.join(VERIF, "evidence"), exist_ok=True)
         with open(os.path.join(VERIF, "evidence", self.prop + ".json"), "w") as f:
             json.dump(ev, f, indent=1, sort_keys=True)
